@@ -663,12 +663,34 @@ class MethodType(Enum):
 class RpcError(Exception):
     """Raised on the client side when the server reports an error."""
 
-    def __init__(self, error_type: str, error_message: str, remote_traceback: str, *, request_id: str = "") -> None:
-        """Initialize with error details from the remote side."""
+    def __init__(
+        self,
+        error_type: str,
+        error_message: str,
+        remote_traceback: str,
+        *,
+        request_id: str = "",
+        error_kind: str = "",
+    ) -> None:
+        """Initialize with error details from the remote side.
+
+        Args:
+            error_type: Class name of the remote exception.
+            error_message: The remote error text.
+            remote_traceback: Formatted remote traceback, if any.
+            request_id: Correlation id of the failed request.
+            error_kind: Stable machine-readable kind carried as
+                ``vgi_rpc.error_kind`` for the typed framework errors
+                (``protocol_version_mismatch``, ``method_not_implemented``,
+                ``session_lost``, ``server_draining``, ...); ``""`` when the
+                server sent none.
+
+        """
         self.error_type = error_type
         self.error_message = error_message
         self.remote_traceback = remote_traceback
         self.request_id = request_id
+        self.error_kind = error_kind
         super().__init__(f"{error_type}: {error_message}")
 
 
